@@ -201,6 +201,11 @@ Section TrsoRec.
     - match goal with |- PA (A_pl N (Kq ?q')) _ _ = true => change (Kq q') with (Kq q) end. apply canon_k. apply PA_prod_safe. apply forallb_forall. intros e' He'.
       apply in_map_iff in He'. destruct He' as [node [<- _]]. fold ordering.
       destruct (index_nat node ordering) as [i|] eqn:Ei; [|reflexivity].
+      destruct (is_marginal_of_joint (texpr q)).
+      2:{ (* derived from the carried distribution *)
+          apply PA_truediv; apply (PA_sum_safe_plain (A_pl N (Kq q)) pv (pv_not_bad N)); try exact He; apply Vs_pv; intros x Hx.
+          - apply Hord. eapply skipn_incl_local. exact Hx.
+          - destruct Hx as [<-|Hx]; [apply Hord; eapply index_nat_In'; exact Ei|apply Hord; eapply skipn_incl_local; exact Hx]. }
       unfold prob_safe, dist_safe. cbn [fst snd]. unfold prob_raw.
       match goal with |- PA _ _ (match ?c with [] => _ | _ => _ end) = true => destruct c as [|c0 ct] eqn:Ec; [reflexivity|rewrite <- Ec] end.
       apply PA_of_atoms. cbn [all_atoms]. apply A_pl_new; [exact HP|rewrite Ec; discriminate| |].
